@@ -261,9 +261,9 @@ def run_isolated(exe, requests, mem_bytes=2 << 30, timeout_total=900, args=()):
                       per_line_timeout=25, max_hangs=4)
 
 
-def run_driver(requests, timeout=900):
+def run_driver(requests, timeout=900, mem_bytes=6 << 30):
     # memory cap: a request whose honest evaluation is astronomically large must die quickly ('abort'), not eat the machine
-    return run_stream(DRIVER, requests, timeout=timeout, isolate=True, mem_bytes=6 << 30)
+    return run_stream(DRIVER, requests, timeout=timeout, isolate=True, mem_bytes=mem_bytes)
 
 
 _built = {}
@@ -565,14 +565,14 @@ def reordered_pass(run, exe, requests, model, canon, label, isolate, timeout):
                 run.extra["teardown_pass_requests"] = run.extra.get("teardown_pass_requests", 0) + len(hot)
 
 
-def both(run, requests, label, profile="release", isolate=False, canon=None, timeout=1800, compare=True, reorder=True):
+def both(run, requests, label, profile="release", isolate=False, canon=None, timeout=1800, compare=True, reorder=True, mem_bytes=6 << 30):
     """Run the same request lines through the implementation (harness) and the model (Lean driver)."""
     exe = harness(run, profile)
     if isolate:
         impl = run_isolated(exe, requests, timeout_total=timeout)
     else:
-        impl = run_stream(exe, requests, timeout=timeout, isolate=True, mem_bytes=6 << 30)
-    model = run_driver(requests, timeout=timeout)
+        impl = run_stream(exe, requests, timeout=timeout, isolate=True, mem_bytes=mem_bytes)
+    model = run_driver(requests, timeout=timeout, mem_bytes=mem_bytes)
     if compare:
         n0 = len(run.corr_disagreements)
         run.correspond(requests, impl, model, canon, label)
